@@ -54,6 +54,9 @@ def make_value(vs, n, tiny=False):
         if c == 'range':
             return range(base, base + L)
         items = [el(i) for i in range(L)]
+        if vs.get('tail') and items:
+            # right length, but the LAST element cannot be stored (so a careless element-by-element write gets most of the way)
+            items[-1] = 'n/a' if vs['tail'] == 'bad' else None
         if c == 'list':
             return items
         if c == 'tuple':
